@@ -1,7 +1,7 @@
 (** * C08 — module mode: the trait's methods are exactly the module's non-private functions *)
 From Coq Require Import List String Ascii Bool.
-From Entrait Require Import Tok Syn Opts Split FnParams Convert Codegen Expand Proj Examples.
-From Entrait.Proofs Require Import Base Shapes NonVac PSplit PC08 PC08b.
+From Entrait Require Import Tok Syn Opts Split FnParams Convert Codegen Expand Proj Proj2 Proj3 ProjSide Examples.
+From Entrait.Proofs Require Import Base Shapes NonVac PSplit PC08 PC08b PC13 Vis PC08c.
 Import ListNotations.
 Local Open Scope list_scope.
 
@@ -94,17 +94,39 @@ Theorem c08_items_compose : forall in_mod sigs (pieces : list (toks * body_item)
 Proof. exact chunks_compose. Qed.
 Print Assumptions c08_items_compose.
 
+(** "The trait is importable from the module's parent under the requested name and visibility, as if it had been
+    declared next to the module": the trait [tr] sits inside the module with visibility [module_vis] of the requested
+    one, and is re-exported beside the module by [<requested vis> use module::Trait;] ... *)
+Theorem c08_importable : forall v attr h name body sigs sf items,
+  expand_items v attr (InMod h name body sigs sf) = Ok items ->
+  exists a user tr im,
+    parse_fn_attr attr = Ok a /\
+    items = [IMod (h_attrs h) (h_vis h) name (user ++ [ITrait tr; IImpl im]);
+             IUse [] (fa_vis a) ([TId name] ++ path_sep ++ [TId (fa_trait a)])] /\
+    t_name tr = fa_trait a /\
+    t_vis tr = module_vis (fa_vis a).
+Proof. exact c13_mod_vis. Qed.
+Print Assumptions c08_importable.
+
+(** ... and [module_vis v], read inside the module, denotes the scope that [v] denotes next to the module
+    ([Vis.vis_scope]), whatever the module is called and wherever it stands. *)
+Theorem c08_as_if_declared_next_to_the_module : forall site m v s,
+  vis_scope site v = Some s -> vis_scope (m :: site) (module_vis v) = Some s.
+Proof. exact module_vis_scope. Qed.
+Print Assumptions c08_as_if_declared_next_to_the_module.
+
 (** The predicate the checker evaluates (method list = the list of directly declared visible functions
-    found by syn's own item parser, the oracle [sf]) holds of every model expansion for which that oracle
-    agrees with the splitter; the agreement itself is what the per-run correspondence measures. *)
+    found by syn's own item parser, the oracle [sf]; and the trait's visibility, the re-export's visibility and
+    path as above) holds of every model expansion for which that oracle agrees with the splitter; the agreement
+    itself is what the per-run correspondence measures. *)
 Theorem c08_view_sound : forall v attr h name body sigs sf items bitems fl,
   expand_items v attr (InMod h name body sigs sf) = Ok items ->
   split_body true sigs body = Ok (bitems, fl) ->
   (forall l, sf = Some l -> l = split_fn_names bitems) ->
-  good (view_C08 (mkCtx v attr (InMod h name body sigs sf)) items).
-Proof. exact c08_view. Qed.
+  good (view_C08g (mkCtx v attr (InMod h name body sigs sf)) items).
+Proof. exact c08g_view. Qed.
 Print Assumptions c08_view_sound.
 
-Example c08_nonvacuous : nonvacuous view_C08 ex_mod = true.
+Example c08_nonvacuous : nonvacuous view_C08g ex_mod = true.
 Proof. vm_compute. reflexivity. Qed.
 Print Assumptions c08_nonvacuous.
